@@ -719,19 +719,20 @@ func (c *vCase) results(callFrom int) string {
 	c.node.mu.Lock()
 	calls := append([]string{}, c.node.calls[callFrom:]...)
 	c.node.mu.Unlock()
-	var look, seq []string
+	var look, bts []string
 	sentinel := "rc:" + hex.EncodeToString(vSentinelTx[:])
 	for _, x := range calls {
 		if x == sentinel {
-			break
+			continue
 		}
 		if strings.HasPrefix(x, "rc:") {
 			look = append(look, x[3:])
 		}
-		if x != "bn" {
-			seq = append(seq, strings.SplitN(x, ":", 2)[0])
+		if strings.HasPrefix(x, "bt:") {
+			bts = append(bts, x[3:])
 		}
 	}
+	sort.Strings(bts)
 	sort.Strings(look)
 	pend, en := c.pendingSnapshot()
 	var ps []string
@@ -751,8 +752,8 @@ func (c *vCase) results(callFrom int) string {
 	if en {
 		enS = 1
 	}
-	return fmt.Sprintf("heads=%s look=%s fwd=%s reord=%s out=%s pend=%s en=%d exit=%s stuck=%s seq=%s",
-		vjoin(heads, ","), vjoin(look, ","), vjoin(fwd, ";"), vjoin(reobs, ","), vjoin(outs, ","), vjoin(ps, ","), enS, ex, st, vjoin(seq, ","))
+	return fmt.Sprintf("heads=%s look=%s fwd=%s reord=%s out=%s pend=%s en=%d exit=%s stuck=%s bts=%s",
+		vjoin(heads, ","), vjoin(look, ","), vjoin(fwd, ";"), vjoin(reobs, ","), vjoin(outs, ","), vjoin(ps, ","), enS, ex, st, vjoin(bts, ","))
 }
 
 func (c *vCase) callMark() int {
@@ -875,6 +876,18 @@ func (c *vCase) opLog(l vLogSpec, pick func(vTxRef) vRcAns) {
 	for c.stuck == "" {
 		now, _ := c.pendingSnapshot()
 		if p := now[key]; p != nil && p != prev {
+			break
+		}
+		// ... or it was inserted and already consumed by the head event that its insertion enabled
+		// (every removal from pending is logged with the full key)
+		consumed := false
+		for _, e := range c.sink.snapshot(c.logFrom) {
+			if _, ok := vOutcomeByMsg[e.msg]; ok && e.f["tx"] == l.tx.Hex() && e.f["blockhash"] == l.bh.Hex() &&
+				fmt.Sprint(e.f["sequence"]) == strconv.FormatUint(l.m.seq, 10) && e.f["emitter_address"] == key.EmitterAddress.String() {
+				consumed = true
+			}
+		}
+		if consumed {
 			break
 		}
 		select {
